@@ -1,16 +1,260 @@
-import SiaModel.Ledger.Model
-/-! # C02 — no double spend (theorems under development by the ledger proof work; see DESIGN.md §6 C02) -/
+import SiaProofs.Lemmas.LedgerC08V1
+import SiaProofs.Lemmas.LedgerC08V2
+import SiaProofs.Lemmas.LedgerC02Block
+import SiaProofs.Props.C08
+/-!
+# C02 — no double spend or double resolution (ledger model)
+
+* in one transaction: `c02_v2_sc_dup_in_txn`, `c02_v2_sf_dup_in_txn`, `c02_v1_dup_in_txn`,
+  `c02_v2_contract_dup_in_txn`;
+* in different transactions of one block (any mix of versions): `c02_apply_records_spends`,
+  `c02_spent_in_block_rejected`, and for whole blocks `c02_block_no_repeats`;
+* in different blocks: `c02_commit_removes_spent…`, `c02_spent_in_earlier_block_rejected`;
+* `c02_lookup_checks_kind`: a v1 parent id is only ever resolved to the element carrying that id.
+-/
 namespace C02
-open Sia.Ledger
+open Sia.Ledger C08
 
-/-- spending an element records its id in the block's spend log -/
-theorem c02_spendSc_records (ms : Mid) (e : ScElem) : (ms.spendSc e).isSpent e.id = true := by
-  simp [Mid.spendSc, Mid.isSpent]
+theorem isSpent_false_iff (ms : Mid) (id : Id) : ms.isSpent id = false ↔ id ∉ ms.spends := by
+  simp [Mid.isSpent]
 
-theorem c02_spendSf_records (ms : Mid) (e : SfElem) : (ms.spendSf e).isSpent e.id = true := by
-  simp [Mid.spendSf, Mid.isSpent]
+theorem isSpent_true_iff (ms : Mid) (id : Id) : ms.isSpent id = true ↔ id ∈ ms.spends := by
+  simp [Mid.isSpent]
 
-theorem c02_resolveFc1_records (ms : Mid) (e : Fc1Elem) (v : Bool) : (ms.resolveFc1 e v).isSpent e.id = true := by
-  simp [Mid.resolveFc1, Mid.isSpent]
+-- ================================================================= one transaction
+
+/-- a v2 transaction listing the same siacoin parent id twice is rejected (without panic) -/
+theorem c02_v2_sc_dup_in_txn (ms : Mid) (t : Txn2) (mw : Nat) (h : ¬ (t.scIns.map (·.parent.id)).Nodup) :
+    Rejected (validateV2Siacoins ms t) ∧ Rejected (validateV2Transaction ms t mw) := by
+  have : Rejected (validateV2Siacoins ms t) := validateV2Siacoins_rejected ms t (fun hh => h hh.2)
+  exact ⟨this, v2Txn_rejected_of_sc this⟩
+
+/-- a v2 transaction listing the same siafund parent id twice is rejected by `validateV2Siafunds`
+and therefore never accepted -/
+theorem c02_v2_sf_dup_in_txn (ms : Mid) (t : Txn2) (mw : Nat) (h : ¬ (t.sfIns.map (·.parent.id)).Nodup) :
+    Rejected (validateV2Siafunds ms t) ∧ NotOk (validateV2Transaction ms t mw) := by
+  have : Rejected (validateV2Siafunds ms t) := validateV2Siafunds_rejected ms t (fun hh => h hh.2)
+  exact ⟨this, v2Txn_notOk_of_sf this.notOk⟩
+
+/-- a v1 transaction that spends or revises a parent twice (among all siacoin inputs, siafund inputs
+and revisions), or proves storage twice for one contract, or both revises and proves, is not accepted -/
+theorem c02_v1_dup_in_txn (ms : Mid) (t : Txn1) (pid mw : Nat)
+    (h : ¬ (t.scIns.map (·.parent) ++ t.sfIns.map (·.parent) ++ t.revs.map (·.parent)).Nodup ∨
+         ¬ (t.proofs.map (·.parent)).Nodup ∨ (t.proofs ≠ [] ∧ t.revs ≠ [])) :
+    NotOk (validateTransaction ms t pid mw) ∧
+      (¬ (t.scIns.map (·.parent) ++ t.sfIns.map (·.parent) ++ t.revs.map (·.parent)).Nodup →
+        Rejected (validateSignatures t)) := by
+  refine ⟨?_, fun h => ?_⟩
+  · rcases h with h | h | ⟨h1, h2⟩
+    · apply v1Txn_notOk_of_sig
+      intro _ hr; exact h ((validateSignatures_ok_iff t).1 hr).1
+    · apply v1Txn_notOk_of_fc
+      intro _ hr; exact h ((validateFileContracts_ok_iff ms t pid).1 hr).2.2.2.1
+    · apply v1Txn_notOk_of_fc
+      intro _ hr
+      apply ((validateFileContracts_ok_iff ms t pid).1 hr).2.2.1
+      refine ⟨List.length_pos_iff.2 h1, Or.inr (Or.inr (Or.inr (List.length_pos_iff.2 h2)))⟩
+  · unfold validateSignatures
+    simp only []
+    rw [if_pos h]; simp
+
+/-- a v2 transaction that revises one contract twice, resolves one twice, or revises and resolves
+the same contract, is not accepted -/
+theorem c02_v2_contract_dup_in_txn (ms : Mid) (t : Txn2) (mw : Nat)
+    (h : ¬ (t.revs.map (·.parent.id)).Nodup ∨ ¬ (t.ress.map (·.parent.id)).Nodup ∨
+         (∃ r ∈ t.revs, ∃ r' ∈ t.ress, r.parent.id = r'.parent.id)) :
+    NotOk (validateV2FileContracts ms t) ∧ NotOk (validateV2Transaction ms t mw) := by
+  have : NotOk (validateV2FileContracts ms t) := by
+    intro _ hr
+    obtain ⟨_, _, h1, h2, h3⟩ := (validateV2FileContracts_ok_iff ms t).1 hr
+    rcases h with h | h | ⟨r, hr, r', hr', heq⟩
+    · exact h h1
+    · exact h h3
+    · apply (h2 r' hr').notRevised
+      rw [List.mem_reverse, ← heq]
+      exact List.mem_map.2 ⟨r, hr, rfl⟩
+  exact ⟨this, v2Txn_notOk_of_fc this⟩
+
+example : validateV2Transaction (Ex.M 15)
+    { Ex.txn2 with scIns := [{ parent := Ex.e0, addrOk := true, authOk := true }, { parent := Ex.e0, addrOk := true, authOk := true }], fee := 100 } 100 =
+      .error (.reject "siacoin input double-spends parent output (previously spent by input)") := by decide
+
+-- ================================================================= lookups
+
+/-- `c02_lookup_checks_kind`: a v1 parent id resolves (through the block's diff or through the
+supplement) only to an element that carries exactly that id. -/
+theorem c02_lookup_checks_kind (ms : Mid) (ts : Supp1) (id : Id) :
+    (∀ e, ms.scElement ts id = some e → e.id = id) ∧ (∀ e, ms.sfElement ts id = some e → e.id = id) ∧
+    (∀ e, ms.fc1Element ts id = some e → e.id = id) :=
+  ⟨fun _ h => scElement_id h, fun _ h => sfElement_id h, fun _ h => fc1Element_id h⟩
+
+-- ================================================================= different transactions of one block
+
+/-- Applying a transaction prepends to `spends` exactly the ids it consumes — spent siacoin and
+siafund parents and resolved contracts — and keeps everything recorded before. -/
+theorem c02_apply_records_spends :
+    (∀ (ms ms' : Mid) (t : Txn1), applyTransaction ms t = .ok ms' →
+      ms'.spends = (t.proofs.map (·.parent)).reverse ++ ((t.sfIns.map (·.parent)).reverse ++
+        ((t.scIns.map (·.parent)).reverse ++ ms.spends))) ∧
+    (∀ (ms ms' : Mid) (t : Txn2), applyV2Transaction ms t = .ok ms' →
+      ms'.spends = (t.ress.map (·.parent.id)).reverse ++ ((t.sfIns.map (·.parent.id)).reverse ++
+        ((t.scIns.map (·.parent.id)).reverse ++ ms.spends))) :=
+  ⟨fun _ _ _ h => applyTransaction_spends h, fun _ _ _ h => applyV2Transaction_spends h⟩
+
+/-- the ids a v1 / v2 transaction uses in a way that conflicts with an earlier consumption -/
+def Txn1.uses (t : Txn1) : List Id :=
+  t.scIns.map (·.parent) ++ t.sfIns.map (·.parent) ++ t.revs.map (·.parent) ++ t.proofs.map (·.parent)
+def Txn2.uses (t : Txn2) : List Id :=
+  t.scIns.map (·.parent.id) ++ t.sfIns.map (·.parent.id) ++ t.revs.map (·.parent.id) ++ t.ress.map (·.parent.id)
+
+/-- If `id` was consumed earlier in the block (by a transaction of either version), no later v1
+transaction using it as siacoin input, siafund input, revised or proven contract, and no later v2
+transaction using it as siacoin input, siafund input, revised or resolved contract, is accepted. -/
+theorem c02_spent_in_block_rejected (ms : Mid) (id : Id) (hs : ms.isSpent id = true) :
+    (∀ (t : Txn1) (pid mw : Nat), id ∈ Txn1.uses t → NotOk (validateTransaction ms t pid mw)) ∧
+    (∀ (t : Txn2) (mw : Nat), id ∈ Txn2.uses t → NotOk (validateV2Transaction ms t mw)) := by
+  constructor
+  · intro t pid mw hu _ hr
+    obtain ⟨_, _, _, _, hsc, hsf, hfc, _, _⟩ := (validateTransaction_ok_iff ms t pid mw).1 hr
+    simp only [Txn1.uses, List.mem_append, List.mem_map] at hu
+    rcases hu with ((⟨x, hx, rfl⟩ | ⟨x, hx, rfl⟩) | ⟨x, hx, rfl⟩) | ⟨x, hx, rfl⟩
+    · obtain ⟨p, _, hrules⟩ := validateSiacoins_ok_rules hsc x hx
+      rw [hrules.notSpent] at hs; cases hs
+    · obtain ⟨p, _, hrules⟩ := ((validateSiafunds_ok_iff ms t).1 hsf).1 x hx
+      rw [hrules.notSpent] at hs; cases hs
+    · obtain ⟨p, _, hrules⟩ := ((validateFileContracts_ok_iff ms t pid).1 hfc).2.1 x hx
+      rw [hrules.notSpent] at hs; cases hs
+    · have hrules := ((validateFileContracts_ok_iff ms t pid).1 hfc).2.2.2.2 x hx
+      rw [hrules.notSpent] at hs; cases hs
+  · intro t mw hu _ hr
+    obtain ⟨_, _, _, _, hsc, hsf, hfc, _, _⟩ := (validateV2Transaction_ok_iff ms t mw).1 hr
+    simp only [Txn2.uses, List.mem_append, List.mem_map] at hu
+    rcases hu with ((⟨x, hx, rfl⟩ | ⟨x, hx, rfl⟩) | ⟨x, hx, rfl⟩) | ⟨x, hx, rfl⟩
+    · have hrules := ((validateV2Siacoins_ok_iff ms t).1 hsc).1 x hx
+      rw [hrules.notSpent] at hs; cases hs
+    · have hrules := ((validateV2Siafunds_ok_iff ms t).1 hsf).1 x hx
+      rw [hrules.notSpent] at hs; cases hs
+    · have hrules := ((validateV2FileContracts_ok_iff ms t).1 hfc).2.1 x hx
+      rw [hrules.notSpent] at hs; cases hs
+    · have hrules := ((validateV2FileContracts_ok_iff ms t).1 hfc).2.2.2.1 x hx
+      rw [hrules.notSpent] at hs; cases hs
+
+-- ================================================================= whole blocks
+
+/-- parent ids of all siacoin inputs / siafund inputs / contract resolutions of a block, in order -/
+def Block.scSpent (b : Block) : List Id :=
+  (b.txns1.map (fun t => t.scIns.map (·.parent))).flatten ++ (b.txns2.map (fun t => t.scIns.map (·.parent.id))).flatten
+def Block.sfSpent (b : Block) : List Id :=
+  (b.txns1.map (fun t => t.sfIns.map (·.parent))).flatten ++ (b.txns2.map (fun t => t.sfIns.map (·.parent.id))).flatten
+def Block.fcResolved (b : Block) : List Id :=
+  (b.txns1.map (fun t => t.proofs.map (·.parent))).flatten ++ (b.txns2.map (fun t => t.ress.map (·.parent.id))).flatten
+
+theorem vb1Step_ok {pid mw : Nat} {s s' : Mid} {t : Txn1} (h : vb1Step pid mw s t = .ok s') :
+    validateTransaction s t pid mw = .ok () ∧
+      s'.spends = (t.proofs.map (·.parent)).reverse ++ ((t.sfIns.map (·.parent)).reverse ++
+        ((t.scIns.map (·.parent)).reverse ++ s.spends)) := by
+  obtain ⟨_, hv, ha⟩ := bind_ok_iff.1 h
+  exact ⟨hv, applyTransaction_spends ha⟩
+
+theorem vb2Step_ok {mw : Nat} {s s' : Mid} {t : Txn2} (h : vb2Step mw s t = .ok s') :
+    validateV2Transaction s t mw = .ok () ∧
+      s'.spends = (t.ress.map (·.parent.id)).reverse ++ ((t.sfIns.map (·.parent.id)).reverse ++
+        ((t.scIns.map (·.parent.id)).reverse ++ s.spends)) := by
+  obtain ⟨_, hv, ha⟩ := bind_ok_iff.1 h
+  exact ⟨hv, applyV2Transaction_spends ha⟩
+
+/-- what acceptance of a v1 transaction says about the ids it consumes -/
+theorem v1_consumed_fresh {ms : Mid} {t : Txn1} {pid mw : Nat} (h : validateTransaction ms t pid mw = .ok ()) :
+    ((t.scIns.map (·.parent)).Nodup ∧ ∀ k ∈ t.scIns.map (·.parent), k ∉ ms.spends) ∧
+    ((t.sfIns.map (·.parent)).Nodup ∧ ∀ k ∈ t.sfIns.map (·.parent), k ∉ ms.spends) ∧
+    ((t.proofs.map (·.parent)).Nodup ∧ ∀ k ∈ t.proofs.map (·.parent), k ∉ ms.spends) := by
+  obtain ⟨_, _, _, _, hsc, hsf, hfc, _, hsig⟩ := (validateTransaction_ok_iff ms t pid mw).1 h
+  have hnd := ((validateSignatures_ok_iff t).1 hsig).1
+  have hnd1 := (List.nodup_append.1 hnd).1
+  refine ⟨⟨(List.nodup_append.1 hnd1).1, ?_⟩, ⟨(List.nodup_append.1 hnd1).2.1, ?_⟩,
+    ⟨((validateFileContracts_ok_iff ms t pid).1 hfc).2.2.2.1, ?_⟩⟩
+  · intro k hk
+    obtain ⟨x, hx, rfl⟩ := List.mem_map.1 hk
+    obtain ⟨p, _, hr⟩ := validateSiacoins_ok_rules hsc x hx
+    exact (isSpent_false_iff _ _).1 hr.notSpent
+  · intro k hk
+    obtain ⟨x, hx, rfl⟩ := List.mem_map.1 hk
+    obtain ⟨p, _, hr⟩ := ((validateSiafunds_ok_iff ms t).1 hsf).1 x hx
+    exact (isSpent_false_iff _ _).1 hr.notSpent
+  · intro k hk
+    obtain ⟨x, hx, rfl⟩ := List.mem_map.1 hk
+    exact (isSpent_false_iff _ _).1 (((validateFileContracts_ok_iff ms t pid).1 hfc).2.2.2.2 x hx).notSpent
+
+theorem v2_consumed_fresh {ms : Mid} {t : Txn2} {mw : Nat} (h : validateV2Transaction ms t mw = .ok ()) :
+    ((t.scIns.map (·.parent.id)).Nodup ∧ ∀ k ∈ t.scIns.map (·.parent.id), k ∉ ms.spends) ∧
+    ((t.sfIns.map (·.parent.id)).Nodup ∧ ∀ k ∈ t.sfIns.map (·.parent.id), k ∉ ms.spends) ∧
+    ((t.ress.map (·.parent.id)).Nodup ∧ ∀ k ∈ t.ress.map (·.parent.id), k ∉ ms.spends) := by
+  obtain ⟨_, _, _, _, hsc, hsf, hfc, _, _⟩ := (validateV2Transaction_ok_iff ms t mw).1 h
+  obtain ⟨a1, a2, _⟩ := (validateV2Siacoins_ok_iff ms t).1 hsc
+  obtain ⟨b1, b2, _⟩ := (validateV2Siafunds_ok_iff ms t).1 hsf
+  obtain ⟨_, _, _, c1, c2⟩ := (validateV2FileContracts_ok_iff ms t).1 hfc
+  refine ⟨⟨a2, ?_⟩, ⟨b2, ?_⟩, ⟨c2, ?_⟩⟩
+  · intro k hk
+    obtain ⟨x, hx, rfl⟩ := List.mem_map.1 hk
+    exact (isSpent_false_iff _ _).1 (a1 x hx).notSpent
+  · intro k hk
+    obtain ⟨x, hx, rfl⟩ := List.mem_map.1 hk
+    exact (isSpent_false_iff _ _).1 (b1 x hx).notSpent
+  · intro k hk
+    obtain ⟨x, hx, rfl⟩ := List.mem_map.1 hk
+    exact (isSpent_false_iff _ _).1 (c1 x hx).notSpent
+
+/-- In an accepted block no siacoin output, no siafund output is spent twice and no contract is
+resolved twice — whatever the versions and positions of the transactions involved, outputs created
+inside the block included — and every consumed id is recorded in the final mid-state. -/
+theorem c02_block_no_repeats (L : Ledger) (b : Block) (pid : Id) (ms : Mid) (h : validateBlock L b pid = .ok ms) :
+    (Block.scSpent b).Nodup ∧ (Block.sfSpent b).Nodup ∧ (Block.fcResolved b).Nodup ∧
+      (∀ id ∈ Block.scSpent b ++ Block.sfSpent b ++ Block.fcResolved b, ms.isSpent id = true) := by
+  rw [validateBlock_eq] at h
+  obtain ⟨_, _, h⟩ := bind_ok_iff.1 h
+  obtain ⟨_, _, h⟩ := bind_ok_iff.1 h
+  split at h
+  · exact absurd h (reject_ne_ok _ _)
+  obtain ⟨s1, h1, h2⟩ := bind_ok_iff.1 h
+  have mono1 : ∀ (s s' : Mid) (t : Txn1), vb1Step pid b.maxWeight s t = .ok s' → ∀ k ∈ s.spends, k ∈ s'.spends := by
+    intro s s' t hs k hk; rw [(vb1Step_ok hs).2]; simp [hk]
+  have mono2 : ∀ (s s' : Mid) (t : Txn2), vb2Step b.maxWeight s t = .ok s' → ∀ k ∈ s.spends, k ∈ s'.spends := by
+    intro s s' t hs k hk; rw [(vb2Step_ok hs).2]; simp [hk]
+  -- siacoins
+  have sc1 := foldlM_keys_nodup (fun t : Txn1 => t.scIns.map (·.parent))
+    (fun s t s' hs => ⟨(v1_consumed_fresh (vb1Step_ok hs).1).1.1, (v1_consumed_fresh (vb1Step_ok hs).1).1.2,
+      mono1 s s' t hs, fun k hk => by rw [(vb1Step_ok hs).2]; simp only [List.mem_append, List.mem_reverse]; exact Or.inr (Or.inr (Or.inl hk))⟩)
+    b.txns1 (newMid L) s1 [] ⟨List.nodup_nil, by simp⟩ h1
+  have sc2 := foldlM_keys_nodup (fun t : Txn2 => t.scIns.map (·.parent.id))
+    (fun s t s' hs => ⟨(v2_consumed_fresh (vb2Step_ok hs).1).1.1, (v2_consumed_fresh (vb2Step_ok hs).1).1.2,
+      mono2 s s' t hs, fun k hk => by rw [(vb2Step_ok hs).2]; simp only [List.mem_append, List.mem_reverse]; exact Or.inr (Or.inr (Or.inl hk))⟩)
+    b.txns2 s1 ms _ ⟨sc1.1, sc1.2.1⟩ h2
+  -- siafunds
+  have sf1 := foldlM_keys_nodup (fun t : Txn1 => t.sfIns.map (·.parent))
+    (fun s t s' hs => ⟨(v1_consumed_fresh (vb1Step_ok hs).1).2.1.1, (v1_consumed_fresh (vb1Step_ok hs).1).2.1.2,
+      mono1 s s' t hs, fun k hk => by rw [(vb1Step_ok hs).2]; simp only [List.mem_append, List.mem_reverse]; exact Or.inr (Or.inl hk)⟩)
+    b.txns1 (newMid L) s1 [] ⟨List.nodup_nil, by simp⟩ h1
+  have sf2 := foldlM_keys_nodup (fun t : Txn2 => t.sfIns.map (·.parent.id))
+    (fun s t s' hs => ⟨(v2_consumed_fresh (vb2Step_ok hs).1).2.1.1, (v2_consumed_fresh (vb2Step_ok hs).1).2.1.2,
+      mono2 s s' t hs, fun k hk => by rw [(vb2Step_ok hs).2]; simp only [List.mem_append, List.mem_reverse]; exact Or.inr (Or.inl hk)⟩)
+    b.txns2 s1 ms _ ⟨sf1.1, sf1.2.1⟩ h2
+  -- contract resolutions
+  have fc1 := foldlM_keys_nodup (fun t : Txn1 => t.proofs.map (·.parent))
+    (fun s t s' hs => ⟨(v1_consumed_fresh (vb1Step_ok hs).1).2.2.1, (v1_consumed_fresh (vb1Step_ok hs).1).2.2.2,
+      mono1 s s' t hs, fun k hk => by rw [(vb1Step_ok hs).2]; simp only [List.mem_append, List.mem_reverse]; exact Or.inl hk⟩)
+    b.txns1 (newMid L) s1 [] ⟨List.nodup_nil, by simp⟩ h1
+  have fc2 := foldlM_keys_nodup (fun t : Txn2 => t.ress.map (·.parent.id))
+    (fun s t s' hs => ⟨(v2_consumed_fresh (vb2Step_ok hs).1).2.2.1, (v2_consumed_fresh (vb2Step_ok hs).1).2.2.2,
+      mono2 s s' t hs, fun k hk => by rw [(vb2Step_ok hs).2]; simp only [List.mem_append, List.mem_reverse]; exact Or.inl hk⟩)
+    b.txns2 s1 ms _ ⟨fc1.1, fc1.2.1⟩ h2
+  simp only [List.nil_append] at sc2 sf2 fc2
+  refine ⟨sc2.1, sf2.1, fc2.1, ?_⟩
+  intro id hid
+  rw [isSpent_true_iff]
+  rcases List.mem_append.1 hid with hid | hid
+  · rcases List.mem_append.1 hid with hid | hid
+    · exact sc2.2.1 id hid
+    · exact sf2.2.1 id hid
+  · exact fc2.2.1 id hid
 
 end C02
